@@ -418,6 +418,34 @@ def gen_probes(ck: Check):
             yield {"limit": 30, "leaf": "c0", "loader": loader, "data": {}, "judge": True, "tag": "cycle"}
 
 
+def gen_placeholders(ck: Check):
+    """Placeholder blocks: a parent defines a block with an EMPTY (or whitespace-only) default as the only content of a
+    loop, of an outer block, or on its own, and a descendant overrides it -- the override must be rendered."""
+    def holders(body):
+        inner = ("block", "a", False, None, body)
+        yield [inner]
+        yield [("for", "i", 1, 2, [inner])]
+        yield [("block", "o", False, None, [inner])]
+        yield [("block", "o", False, None, [("for", "i", 1, 1, [inner])])]
+        yield [T("<"), ("for", "i", 1, 2, [inner]), T(">")]
+        yield [("block", "a", True, None, body)]
+        yield [("for", "i", 1, 1, [("block", "a", True, None, body)])]
+    overrides = ([T("X")], [T("X"), ("super",)], [("var", "g")], [("for", "j", 1, 2, [T("y")])], [])
+    for body in ([], [T(" ")], [T("\n")]):
+        for hold in holders(body):
+            for ov in overrides:
+                leaf = [("extends", "root"), ("node", ("block", "a", False, None, ov))]
+                yield {"limit": 30, "leaf": "leaf", "data": {"g": 7}, "judge": True, "tag": "placeholder2",
+                       "loader": {"leaf": leaf, "root": [("node", T("["))] + [("node", m) for m in hold] + [("node", T("]"))]}}
+                yield {"limit": 30, "leaf": "leaf", "data": {"g": 7}, "judge": True, "tag": "placeholder3",
+                       "loader": {"leaf": leaf, "root": [("extends", "base")],
+                                  "base": [("node", T("["))] + [("node", m) for m in hold] + [("node", T("]"))]}}
+                # the placeholder in the middle template, the text default in the base
+                yield {"limit": 30, "leaf": "leaf", "data": {"g": 7}, "judge": True, "tag": "placeholder-mid",
+                       "loader": {"leaf": leaf, "root": [("extends", "base"), ("node", ("block", "a", False, None, body))],
+                                  "base": [("node", T("["))] + [("node", m) for m in hold] + [("node", T("]"))]}}
+
+
 # --------------------------------------------------------------------------------------------------------- run
 def _depth(s):
     return ("err", "EContextDepth") if s == ("err", "ERecursionError") else s
@@ -452,7 +480,7 @@ def run(ck: Check) -> None:
     ck.proof()
 
     n_random = 1500 if ck.quick else 15000
-    cases = itertools.chain(gen_probes(ck), gen_shaped(ck), gen_random(ck, n_random, 3 if ck.quick else 4))
+    cases = itertools.chain(gen_probes(ck), gen_placeholders(ck), gen_shaped(ck), gen_random(ck, n_random, 3 if ck.quick else 4))
     gcases, expected, meta = [], [], []
     explained = set()
     nviol = 0
